@@ -58,7 +58,7 @@ def match_finding(e, tol, act):
     if e.get("k") == "clip" and e.get("deg") == 0 and "F19a" in act and tol["TOLFLIP"] == "0":
         if sum(e.get("fp", [])) > 0 and sum(e.get("fb", [1])) == 0:
             return "F19a"
-    if e.get("k") == "gdec" and "F19b" in act and tol["TOLTRANS"] == "0" and is_trans(e) and e.get("hn", 0) > 0:
+    if e.get("k") == "gdec" and "F19b" in act and tol["TOLTRANS"] == "0" and is_trans(e) and (e.get("hn", 0) > 0 or e.get("wh16", 0) > 0 or e.get("mh16", 32767) < 32767):
         return "F19b"
     return None
 
@@ -294,6 +294,37 @@ def input_line_of(out, ip, rej):
 _LOCK = threading.Lock()
 
 
+def split_flagged(job, act):
+    """Routing only (nothing is judged here): the sequences / streams that contain an event matching the key of a listed finding go
+    to a small trace file of their own, so that TLC's rejection and the tolerant second pass concern only them."""
+    k, mode, variant, ip, out = job
+    none = dict(TOLFLIP="0", TOLTRANS="0")
+    groups = []; cur = None
+    with open(out) as f:
+        for ln in f:
+            if ln.startswith('{"k":"seq"') or ln.startswith('{"k":"gnew"') or cur is None:
+                cur = [False, []]
+                groups.append(cur)
+            cur[1].append(ln)
+            if not cur[0] and ('"k":"clip"' in ln or '"k":"gdec"' in ln):
+                try:
+                    if match_finding(json.loads(ln), none, act):
+                        cur[0] = True
+                except ValueError:
+                    pass
+    if not any(g[0] for g in groups) or all(g[0] for g in groups):
+        return [job]
+    res = []
+    for flag, suffix in ((False, ".rest"), (True, ".flag")):
+        p = out + suffix
+        with open(p, "w") as f:
+            for g in groups:
+                if g[0] == flag:
+                    f.writelines(g[1])
+        res.append((k, mode, variant + suffix, ip, p))
+    return res
+
+
 def judge(ctx, job, act, reported):
     """TLC judges one trace chunk.  Returns (tol flags used, rejected line or None, drift line or None)."""
     k, mode, variant, ip, out = job
@@ -374,12 +405,16 @@ def confirm_and_report(ctx, exe_by_variant, job, rej, act):
 
 def model_runs(ctx):
     tier = ctx.tier
-    r = ctx.mc("SoftClip_mc", "SoftClip_mc_quick.cfg", what="soft clipper: all call sequences <= 3, C 0..3", workers=8,
-               timeout=900, require_actions=["CCall", "CZero"])
+    # action coverage (vacuity guard) on a small instance: -coverage is slow on the big ones
+    r = ctx.mc("SoftClip_mc", "SoftClip_mc_cov.cfg", what="soft clipper: action coverage (depth 2, C 0..2)", workers=2,
+               timeout=600, require_actions=["CCall", "CZero"])
     if r.violation:
         raise vf.Infra("SoftClip model invariant %s violated:\n%s" % (r.violation, r.state_dump[:1500]))
     if r.coverage.get("CDegenerate", (0, 0))[1] == 0:
         raise vf.Infra("SoftClip model: no degenerate call explored (vacuous)")
+    r = ctx.mc("SoftClip_mc", "SoftClip_mc_quick.cfg", what="soft clipper: all call sequences <= 3, C 0..3", workers=8, timeout=900)
+    if r.violation:
+        raise vf.Infra("SoftClip model invariant %s violated:\n%s" % (r.violation, r.state_dump[:1500]))
     if tier == "thorough":
         r = ctx.mc("SoftClip_mc", "SoftClip_mc_thorough.cfg", what="soft clipper: all call sequences <= 4, C 0..3", workers=8, timeout=1500)
         if r.violation:
@@ -427,12 +462,19 @@ def run(ctx):
     if ctx.replay:
         return replay(ctx)
     act = active_findings()
+    import time
+    t0 = time.time()
+
+    def phase(name):
+        vf.log("[phase] %-28s t=%.1fs" % (name, time.time() - t0))
     model_runs(ctx)
+    phase("model runs done")
     rng = random.Random(ctx.seed)
     clip = clip_lines(ctx, rng)
     gl = gain_lines(ctx, rng, False)
     sp = splice_lines(ctx, rng)
     gfx = gain_lines(ctx, rng, True) + splice_lines(ctx, rng)[:9 if tier == "quick" else 60]
+    phase("behaviours generated")
     exe = {}
     var = vf.build_variant("hk")
     exe["hk"] = vf.build_hx(var, "softclip.c")
@@ -449,7 +491,9 @@ def run(ctx):
     for i, part in enumerate(chunk(gfx, 2 if tier == "quick" else 8)):
         jobs.append((i, "gain", "hkfix", part))
     ctx.notes["executions"] = dict(clip_sequences=len(clip) + len(DIRECTED_CLIP), gain_streams=len(gl) + len(sp), fixed_point_gain_streams=len(gfx))
+    phase("libraries and harness built")
     res = run_chunks(ctx, exe, jobs)
+    phase("executions recorded")
     good = []
     for job, rc, err in res:
         if rc != 0:
@@ -461,14 +505,18 @@ def run(ctx):
     def val(job):
         return job, judge(ctx, job, act, reported)
     ndrift = 0
-    for job, (tol, rej, drift) in vf.parallel(val, good, nproc=min(vf.NCPU, 10)):
+    for job in good:
         stats(ctx, job[4])
+    parts = [p for job in good for p in split_flagged(job, act)]
+    for job, (tol, rej, drift) in vf.parallel(val, parts, nproc=min(vf.NCPU, 10)):
+        job = (job[0], job[1], job[2].split(".")[0], job[3], job[4])
         if rej is not None:
             confirm_and_report(ctx, exe, job, rej, act)
         elif drift is not None and ndrift < 3:
             ndrift += 1
             ctx.spec_drift("SoftClip", "memory flag / untouched output does not follow SoftClip!Process (or the gain did not survive a reset) at %s line %s: "
                            "input [%s] event %s" % (os.path.basename(job[4]), drift, input_line_of(job[4], job[3], drift)[:200], vf.file_line(job[4], drift)[:400]))
+    phase("traces judged")
     # vacuity guards on the implementation side (measured)
     if not ctx.violations:
         need = dict(degenerate_calls=1, inrange_cleared_channels=1, open_tail_channels=1, events_sat16=1, events_sat24=1,
@@ -476,7 +524,7 @@ def run(ctx):
         for kk, v in need.items():
             if OBS[kk] < v:
                 raise vf.Infra("coverage: %s = %d (vacuous run)" % (kk, OBS[kk]))
-    ctx.notes["thresholds"] = dict(SpreadTol_q30=512, FactorTol_q25600=50, SatMin16=16384, SatMin24_q16=16384, flip_floor="2^-10")
+    ctx.notes["thresholds"] = dict(SpreadTol_q30=512, FactorTol_q25600=50, SatMin16=8192, SatMin24_q16=16384, flip_floor="2^-10")
     ctx.notes["observed"] = OBS
 
 
